@@ -62,6 +62,12 @@ def present_x(spec, item, container, names=None):
     """item: row (stream) or list of rows (batch) -> fresh object of the given container kind"""
     arr = np.array([item] if spec.family == "stream" else item, dtype=float)
     names = names or NAMES[: arr.shape[1]]
+    if container.endswith("_int"):
+        # the same (integral) values carried by an integer dtype / python ints
+        if not np.array_equal(arr, np.round(arr)):
+            raise AssertionError("integer container for non-integral data")
+        arr = arr.astype(np.int64)
+        container = container[: -len("_int")]
     if container == "nd2":
         return arr
     if container == "df":
@@ -188,7 +194,7 @@ def fault_is_legal(spec, case, containers, ncols):
         return pos == 0  # no width established yet
     if kind == "rename":
         # names are established by the first accepted DataFrame
-        return not any(c == "df" for c in containers[:pos])
+        return not any(c.startswith("df") for c in containers[:pos])
     return False
 
 
@@ -199,7 +205,7 @@ def g10_region(spec, case, containers):
         and f["kind"] in ("cols+", "cols-")
         and f["container"] == "df"
         and f["pos"] > 0
-        and not any(c == "df" for c in containers[: f["pos"]])
+        and not any(c.startswith("df") for c in containers[: f["pos"]])
     )
 
 
@@ -270,6 +276,8 @@ def check_fault(case, ctx):
             **sigd,
         )
     ctx.label(name, "fault:" + f["kind"], f"{name}:{f['kind']}")
+    if any(isinstance(c, str) and c.endswith("_int") for c in containers):
+        ctx.label("integer-dtype-container")
     if f["pos"] == 0:
         ctx.label("fault-at-0")
     if 0 < f["pos"] < len(items) and f["pos"] >= 2 and containers[f["pos"] - 1] != containers[f["pos"] - 2]:
@@ -297,6 +305,10 @@ def strat_fault(names):
             else:
                 items = draw(vs.batch_history(ncols, n_min=3, n_max=8, rows_min=6, rows_max=14, spread=2, shift=4, p_shift=0.5))
             avail = containers_for(spec, ncols)
+            if spec.kind != "y" and name != "PCACD" and draw(st.integers(0, 3)) == 0:
+                # integral data: integer dtypes / python ints are then equivalent presentations of the same values
+                items = [[float(round(v)) for v in it] for it in items] if spec.family == "stream" else [[[float(round(v)) for v in r] for r in b] for b in items]
+                avail = avail + [c + "_int" for c in avail]
             if spec.kind == "y":
                 containers = [[draw(st.sampled_from(avail)), draw(st.sampled_from(avail))] for _ in items]
             else:
@@ -405,7 +417,7 @@ PROPERTY = {
     "rule": (
         "For each of the 14 Streaming/Batch detectors: a short valid history (3-30 calls, batch detectors start with set_reference) whose "
         "items are presented in drawn containers (scalar / list / 1-D / 2-D ndarray / Series / DataFrame as far as the shape allows, in runs "
-        "with switches) and ONE malformed call injected at a drawn position 0..len: wrong row count, wrong column count (+1/-1, as ndarray, "
+        "with switches; a quarter of the histories hold integral values and may also be presented with integer dtypes / python ints) and ONE malformed call injected at a drawn position 0..len: wrong row count, wrong column count (+1/-1, as ndarray, "
         "list or DataFrame), renamed DataFrame columns, wrong rows combined with another width / other names, multi-column data to a "
         "univariate detector, y with two observations. Oracles: (i) the malformed call raises ValueError (inputs that are legal because "
         "nothing is established yet must be accepted); (ii) the observations after every accepted call equal those of the run without the "
